@@ -86,7 +86,8 @@ def eventhook (id : Nat) (hdr body : List Sexp) : String :=
         s!"expected calls {expCalls}, got {Sexp.list calls}"),
       (out == expOut, s!"eventhook-{mode}-outcome", s!"expected {expOut}, got {out}"),
       (nb.nat? == some nfl && na.nat? == some nfl, s!"eventhook-{mode}-flush-events-not-once-per-flush", s!"{nb} before and {na} after events for {nfl} flushes"),
-      (clean.nat? == some 1, s!"eventhook-{mode}-scheduler-not-clean", "")]
+      ((match clean with | .list [.atom "clean", c, nb, live] => c.nat? == some 1 && nb.nat? == some 0 && live.nat? == some 0 | _ => false),
+        s!"eventhook-{mode}-scheduler-not-clean", s!"{clean} (tasks/active clean, batches scheduled, live batches)")]
   | _, _ => unparsable id "eventhook"
 
 /-! ### debugthreads (C04): DebugBatchItem under one name on two threads -/
@@ -112,13 +113,19 @@ def hookssurvive (id : Nat) (hdr body : List Sexp) : String :=
     let triple := (List.range kk).flatMap fun _ => [a "before", a "body", a "after"]
     let bodies := (List.range kk).map fun _ => a "body"
     let pairs := (List.range kk).flatMap fun _ => [a "before", a "after"]
-    let newSched := how == "module-reset"
-    let expMid := if how == "guard" || how == "guard-nested" then "guard" else if how == "none" then "none" else "reset"
+    -- whether the thread still has the SAME scheduler object is read off the observation (asynq.scheduler.reset() installs a
+    -- new one, the guard and TaskScheduler.reset() keep the object - neither is demanded): handlers subscribed to the object
+    -- that is the thread's scheduler during the second computation see before/body/after, handlers of a replaced object
+    -- see the flush bodies only
+    let newSched := same.nat? == some 0
+    let expMid := if how == "guard" || how == "guard-nested" then [a "guard"] else if how == "none" then [a "none"]
+      else if how == "flush-raises" then [a "raised-flush-error:before.body.after"] else [a "reset"]
     firstBad id [
       (first == "ok" && log1 == triple, s!"flush-events-first-computation-{first}", s!"expected {Sexp.list triple}, got {Sexp.list log1}"),
-      (mid.all (· == a expMid), s!"hooks-survive-{how}-setup", s!"expected every step {expMid}, got {Sexp.list mid}"),
+      (if how == "flush-raises" then mid == expMid else mid.all (fun m => expMid.contains m),
+        (if how == "flush-raises" then "after-event-lost-when-batch-flush-raises" else s!"hooks-survive-{how}-setup"),
+        s!"expected every step {Sexp.list expMid}, got {Sexp.list mid}"),
       (second == "ok", s!"computation-after-{how}-{second}", ""),
-      (same.nat? == some (if newSched then 0 else 1), s!"scheduler-identity-after-{how}", s!"same scheduler object: {same}"),
       (if newSched then log2 == bodies && logNew == pairs else log2 == triple && logNew == [],
         s!"flush-events-lost-after-{how}",
         s!"expected {if newSched then Sexp.list bodies else Sexp.list triple} on the old handlers and {if newSched then Sexp.list pairs else Sexp.list []} on the new ones, got {Sexp.list log2} and {Sexp.list logNew}")]
@@ -175,7 +182,7 @@ def callctx (id : Nat) (hdr body : List Sexp) : String :=
 /-! ### selfawait (C08): a running task awaited by a computation it started synchronously -/
 def selfawait (id : Nat) (hdr body : List Sexp) : String :=
   match hdr, body with
-  | [.atom via, _tol, .atom _after], [.list [.atom "result", .atom out, .atom nested, ab, aa, .list top, .list nxt, fia, act2]] =>
+  | [.atom via, _tol, .atom after], [.list [.atom "result", .atom out, .atom nested, ab, aa, .list top, .list nxt, fia, act2]] =>
     let one := fun (s : Sexp) => s.nat? == some 1
     -- deduplicate hands out a FRESH task while the first instance is running (tools.py; `running` is set when a task is
     -- resumed with a value): after an ordinary or an empty yield the nested call is served.  (Resumed with an error the
@@ -187,24 +194,55 @@ def selfawait (id : Nat) (hdr body : List Sexp) : String :=
         s!"get_active_task() is the task: at its start {fia}, before the nested call {ab}, after it {aa}"),
       (!mustBeFresh || nested == "ok", "selfawait-running-task-handed-out-by-deduplicate", s!"nested call: {nested}"),
       (nested == "ok" || nested == "ValueError", s!"selfawait-nested-call-{nested}", ""),
-      (out != "wrong-value", "selfawait-wrong-value", ""),
-      (top == [a "1", a "0", a "1"] && one act2, "selfawait-scheduler-not-clean-after-outermost-call",
-        s!"outcome {out}; (active task None, tasks retained, same scheduler) = {Sexp.list top}, active task None after the next computation: {act2}"),
-      (nxt == [a "1", a "3", a "1", a "1"], "selfawait-next-computation-not-as-on-a-fresh-scheduler",
-        s!"next computation (values 1 3, creator None, asynq stack of 1): {Sexp.list nxt}")]
+      -- the outcome of the outermost call as a function of the case: a task that really awaits ITSELF is failed with
+      -- ValueError('generator already executing') whatever it does afterwards (tolerating it cannot change a stored
+      -- outcome); a fresh instance handed out by deduplicate lets the first one finish: its value, or what it raises
+      (out == (if !mustBeFresh then "raised-ValueError" else if after == "raise" then "raised-Inner" else "value"),
+        (if out == "wrong-value" then "selfawait-wrong-value" else s!"selfawait-outcome-{out}"),
+        s!"via {via}, after {after}: outcome {out}"),
+      (top == [a "1", a "0", a "1", a "0", a "0"] && one act2, "selfawait-scheduler-not-clean-after-outermost-call",
+        s!"outcome {out}; (active task None, tasks retained, same scheduler, batches scheduled, live batches) = {Sexp.list top}, active task None after the next computation: {act2}"),
+      (nxt == [a "1", a "3", a "1"], "selfawait-next-computation-not-as-on-a-fresh-scheduler",
+        s!"next computation (values 1 3, creator None): {Sexp.list nxt}")]
   | _, _ => unparsable id "selfawait"
 
 /-! ### exotic (C02): see corecommon.run_exotic; header = error class, source -/
+def exoticClass (err : String) : String :=
+  match err with
+  | "Exception" => "ValueError" | "StopIteration" => "MyStop" | "falsy" => "Falsy" | "Cancelled" => "AsyncTaskCancelledError"
+  | "CancelledSub" => "MyCancelled" | e => e
+
+/-- the structure of values 10, 11, ... that must arrive for a yielded structure of the given shape -/
+def exoticValues (shape : String) : Sexp :=
+  let n (i : Nat) : Sexp := .atom (toString (10 + i))
+  let tup (xs : List Sexp) : Sexp := .list (.atom "tup" :: xs)
+  match shape with
+  | "bare" => n 0
+  | "tuple1" => tup [n 0]
+  | "tuple2" => tup [n 0, n 1]
+  | "tuple3" => tup [n 0, n 1, n 2]
+  | "tuple5" => tup [n 0, n 1, n 2, n 3, n 4]
+  | "list3" => .list [.atom "lst", n 0, n 1, n 2]
+  | "dict3" => .list [.atom "dict", .list [.atom "0", n 0], .list [.atom "1", n 1], .list [.atom "2", n 2]]
+  | _ => tup [n 0, .list [.atom "lst", n 1, .list [.atom "dict", .list [.atom "k", tup [n 2, n 3, .atom "none"]]]], .atom "none"]
+
 def exotic (id : Nat) (hdr body : List Sexp) : String :=
   match hdr, body with
-  | [.atom err, .atom _src], [.list [.atom "result", .atom out, .list evs]] =>
-    -- uncaught: the error becomes the task's own failure and value() of the root raises that very instance - except a
-    -- plain GeneratorExit (a generator ending with it counts as `return None`, by design) and StopIteration (CPython turns
-    -- it into RuntimeError inside a generator, PEP 479): not part of the statement, the harness skips that phase
-    let last := if err == "GeneratorExit" || err == "StopIteration" then "uncaught-skipped" else "uncaught-same-error"
-    let expected := [Sexp.atom "values-ok", .atom "same-error", .atom "values-ok", .atom last]
-    if out == "ok" && evs == expected then good id
-    else bad id s!"error-or-values-not-delivered-at-the-yield-{out}" s!"expected {Sexp.list expected}, got {Sexp.list evs}"
+  | [.atom err, .atom _src, .atom shape], [.list [.atom "result", out, .list evs]] =>
+    -- raw observations (what arrived as a structure; class name and identity bit of what was raised), judged here:
+    -- values before and after arrive with the prescribed shape; THE error object (identity) of the prescribed class is
+    -- raised at the yield; uncaught it becomes the task's own failure and value() of the root raises that very instance -
+    -- except a plain GeneratorExit (a generator ending with it counts as `return None`, by design) and StopIteration
+    -- (CPython turns it into RuntimeError inside a generator, PEP 479): the harness skips that phase, and must
+    let cls := exoticClass err
+    let vals := Sexp.list [.atom "values", exoticValues shape]
+    let last := if err == "GeneratorExit" || err == "StopIteration" then Sexp.list [.atom "skipped"]
+      else Sexp.list [.atom "uncaught", .atom cls, .atom "1"]
+    let expected := [vals, Sexp.list [.atom "caught", .atom cls, .atom "1"], vals, last]
+    let outOk := out == Sexp.list [.atom "returned", .atom "7"]
+    let tag := match out with | .list (.atom t :: _) => t | _ => "unreadable"
+    if outOk && evs == expected then good id
+    else bad id s!"error-or-values-not-delivered-at-the-yield-{if outOk then "ok" else tag}" s!"expected {Sexp.list expected}, got {out} {Sexp.list evs}"
   | _, _ => unparsable id "exotic"
 
 /-! ### optprog (C20): hand-written programs over rarely used public API, run without and with options -/
@@ -212,7 +250,11 @@ def optprog (id : Nat) (body : List Sexp) : String :=
   let sep := Sexp.list [.atom "sep"]
   let a := body.takeWhile (· != sep)
   let b := (body.dropWhile (· != sep)).drop 1
-  if a.isEmpty then bad id "options-program-produced-no-observation" ""
+  let unreadable (l : List Sexp) : Bool := l.any fun e => match e with
+    | .list [.atom "unparsable"] | .atom _ => true
+    | _ => false
+  if a.isEmpty || !body.contains sep then bad id "options-program-produced-no-observation" ""
+  else if unreadable a || unreadable b then bad id "options-program-unreadable-observation" ""
   else if a == b then good id
   else
     let i := ((a.zip b).takeWhile fun (x, y) => x == y).length
